@@ -58,10 +58,9 @@ def make_epoch_edge(P, g, tag):
             return self.chi[("e", ep)]
 
         def calc_jacobians(self):
-            ep = self._state()
-            if ("j", ep) not in self.chi:
-                self.chi[("j", ep)] = [P.full_matrix("%sjac%d_%d_%d" % (tag, self.k, ep, a), 2, 2) for a in range(len(self.vertices))]
-            return list(self.chi[("j", ep)])
+            # constant, well-conditioned Jacobians: the linear system stays solvable in the float64 replays, while the
+            # right-hand side (free error per state) still makes every state's system different
+            return [np.array([[1.0, 0.5], [0.25, 2.0]]) * (a + 1 + self.k) for a in range(len(self.vertices))]
 
         def is_valid(self):
             return self._is_valid()
@@ -96,7 +95,7 @@ def _report(max_iter):
         results = []
         from .graphkit import functional_solver
 
-        solver = functional_solver(P) if P.symbolic else None
+        solver = functional_solver(P, contract=True) if P.symbolic else None
         for verbose in (False, True):
             env = install_stubs(P, g, solver=solver)
             graph, verts, edges = _build(P, g)
